@@ -107,13 +107,24 @@ CLAIMED = {
   'design_ref': 'DESIGN.md section 5 C18',
   'note': 'Not decided: well-formedness of the JSON text (jsonify / serde: string code; strings are not escaped - a defect this family cannot decide), TCK DTO round trip (pending), actix routing, body limits, lock poisoning, survival after malformed requests.',
  },
+ 'C13': {
+  'text': 'Partial (scope half). Verus proves on the real bodies that every evaluator closure / function that pushes a temporary context returns with the caller\'s stack of contexts exactly as it found it '
+          '(context literal, filter incl. every return path of the index handling, the for/some/every iteration bodies, function invocation positional/named/definition, the model evaluator\'s boxed context, '
+          'boxed function definition and boxed invocation), given the induction hypothesis that sub-evaluators do; and that each parser reduce action with an access path to the parsing scope has exactly its bracket role '
+          '(begin actions push one temporary context, end actions pop it, name-registering actions write only into the top context, any other action leaves the scope alone); a syntactic frame check scans parser.rs on every run '
+          'so that no other function has an access path.',
+  'design_ref': 'DESIGN.md section 5 C13',
+  'note': 'Trusted: Verus/Z3; R8 (RefCell erased, &Scope becomes &mut Scope), R8a (parser and lexer scope references are one object), A-eval (sub-evaluators are scope-neutral: induction hypothesis), '
+          'A-grammar (each begin action\'s mid-rule symbol occurs in one production whose end action pops: read from the generated production comments of lalr.rs, not proved), FeelIterator::run reaches the scope only through its handler. '
+          'Not decided: repeatability of values (whole-history), failed parses.',
+ },
 }
 NOT_APPLICABLE = {
  'C02': TODO,
  'C04': 'the property is about dyn Fn closures stored in RwLock<HashMap> registries calling one another along the requirement graph; no first-order function carries it, Verus has no support for dyn Fn fields / std RwLock guards, Kani cannot bound the graph (DESIGN.md section 6)',
 
  'C07': 'deciding code is str/format!/C decNumber string conversion (scientific_to_plain, decQuadToString); Verus has no specs for these str APIs and Kani/CBMC did not finish a 3-character instance in 15 min (DESIGN.md section 6)',
- 'C10': TODO, 'C13': TODO,
+ 'C10': TODO,
  'C19': TODO,
  'C20': 'a schedule property: Kani has no thread support and Verus would need the code rewritten onto its own permission/atomic types; Send+Sync is checked by rustc, not by this family (DESIGN.md section 6)',
 }
